@@ -19,6 +19,10 @@ type strCase struct {
 	Input   []byte `json:"input_base64"`
 	Text    string `json:"input_quoted"` // for the reader; Input is authoritative
 	Expect  string `json:"expected_defect,omitempty"`
+	// Prime: a string decoded (with a fresh decoder of the same level, result discarded)
+	// immediately before Input — typically the valid vector Input was derived from. What a
+	// decoder accepts must not depend on what was decoded before.
+	Prime string `json:"decoded_before,omitempty"`
 }
 
 func newStrCase(ver int, level spec.Level, nilRecv bool, s string) strCase {
@@ -26,7 +30,7 @@ func newStrCase(ver int, level spec.Level, nilRecv bool, s string) strCase {
 }
 
 func (c strCase) key() string {
-	return fmt.Sprintf("%d|%d|%v|%s", c.Ver, c.Level, c.NilRecv, c.Input)
+	return fmt.Sprintf("%d|%d|%v|%s|%s", c.Ver, c.Level, c.NilRecv, c.Input, c.Prime)
 }
 
 func (c strCase) valid() bool {
@@ -35,6 +39,13 @@ func (c strCase) valid() bool {
 
 // decodeAny runs the library decoder and reports (object is nil, error).
 func decodeAny(c strCase) (isNil bool, err error) {
+	if c.Prime != "" {
+		if c.Ver == 2 {
+			decode2(spec.Level(c.Level), c.Prime, false)
+		} else {
+			decode3(spec.Level(c.Level), c.Prime, false)
+		}
+	}
 	if c.Ver == 2 {
 		o, e := decode2(spec.Level(c.Level), string(c.Input), c.NilRecv)
 		return o.isNil(), e
@@ -77,12 +88,17 @@ func drawStringCase(rt *rapid.T, ver int, maxAny int) (strCase, []string) {
 		return newStrCase(ver, dec, nilRecv, v.String()), []string{"gen:valid"}
 	case k <= 6:
 		dec := gen.Level().Draw(rt, "decoder")
-		s, labels := gen.Mutated(rt, ver)
+		s, labels, source := gen.MutatedFrom(rt, ver)
 		cl := []string{"gen:mutated"}
 		for _, l := range labels {
 			cl = append(cl, "edit:"+l)
 		}
-		return newStrCase(ver, dec, nilRecv, s), cl
+		cs := newStrCase(ver, dec, nilRecv, s)
+		if rapid.Bool().Draw(rt, "prime") {
+			cs.Prime = source
+			cl = append(cl, "primed-with-source-vector")
+		}
+		return cs, cl
 	case k <= 8:
 		s, lv, d, label, ok := gen.SingleDefect(rt, ver)
 		if !ok {
